@@ -510,7 +510,7 @@ func FactsAtP(instr ssa.Instruction, prune EdgePrune) []Fact {
 		out = append(out, f)
 		out = append(out, helperOutcomeFacts(f, 0)...)
 	}
-	return out
+	return withMirrored(out)
 }
 
 // nilnessPrune builds an EdgePrune from a decision procedure for "value is nil?" (known, isNil).
@@ -557,7 +557,23 @@ func factsAtDepth(instr ssa.Instruction, depth int) []Fact {
 		// a branch on the outcome of a transparent predicate helper: what its returns establish
 		out = append(out, helperOutcomeFacts(f, depth)...)
 	}
-	return out
+	return withMirrored(out)
+}
+
+// withMirrored adds, for every comparison fact X op Y, the same fact written Y op' X: a rule that looks
+// for `count ≤ limit` also finds `limit ≥ count`.
+func withMirrored(fs []Fact) []Fact {
+	n := len(fs)
+	for i := 0; i < n; i++ {
+		f := fs[i]
+		if f.Op == 0 || f.X == nil || f.Y == nil {
+			continue
+		}
+		m := f
+		m.X, m.Y, m.Op = f.Y, f.X, flipOp(f.Op)
+		fs = append(fs, m)
+	}
+	return fs
 }
 
 // commaOK: v is the boolean (index 1) extracted from a comma-ok producing
@@ -980,6 +996,27 @@ func sameValue(a, b ssa.Value) bool {
 		}
 		return false
 	}
+	// two reads of the same element xs[i] (same slice value, same index value) in a function that never
+	// stores into an element of that slice
+	if ia, ok := la.X.(*ssa.IndexAddr); ok {
+		ib, ok := lb.X.(*ssa.IndexAddr)
+		if !ok || !(strip(ia.X) == strip(ib.X) || sameValue(ia.X, ib.X)) {
+			return false
+		}
+		ka, oka := constInt(ia.Index)
+		kb, okb := constInt(ib.Index)
+		if !((oka && okb && ka == kb) || strip(ia.Index) == strip(ib.Index)) {
+			return false
+		}
+		for _, in := range instrsOf(la.Parent()) {
+			if st, ok := in.(*ssa.Store); ok {
+				if sa, ok := st.Addr.(*ssa.IndexAddr); ok && (strip(sa.X) == strip(ia.X)) {
+					return false
+				}
+			}
+		}
+		return la.Parent() == lb.Parent()
+	}
 	aa, ok1 := la.X.(*ssa.Alloc)
 	ab, ok2 := lb.X.(*ssa.Alloc)
 	if !ok1 || !ok2 || aa != ab {
@@ -1144,7 +1181,6 @@ func chainTo(v ssa.Value, pred func(ssa.Value) bool) bool {
 	}
 	return false
 }
-
 
 func linScale(l Lin, k int64) Lin {
 	out := Lin{Terms: map[string]int64{}, K: l.K * k, OK: l.OK}
